@@ -190,6 +190,26 @@ CHECKS['C16'] = dict(
     note='trusted: TLC, Template.tla, Valence.tla; match enumeration itself is decided by C07/C08; the valence clause is waived where the template leaves an open valence by construction',
     technique='TLC computation of the denoted product from (structure, template, match) compared with recorded Transformer / Reactor products',
     design='5/C16')
+# parts added after the seeding rounds
+CHECKS['C01']['text'] += (' Also: allene / cumulene configuration (one algebra with double bonds), axis mirror, odd groups of equivalent stereo elements, '
+                          'common-isotope labels, and variants that end in a stereo re-perception (empty transaction, canonicalised copy, substructure of everything).')
+CHECKS['C01']['note'] = CHECKS['C01']['note'].replace('molecules with allene marks skipped; ', '')
+CHECKS['C02']['text'] += ' Allene / cumulene marks are compared between the written molecule and the one read back (r-axis).'
+CHECKS['C02']['note'] = CHECKS['C02']['note'].replace('; allene marks not compared yet', '; allene marks compared relationally, not interpreted by the reference reader')
+CHECKS['C03']['text'] += (' Also spec -> code: a generative grammar (SmilesGen.tla) is model checked against the reference reader (reader o writer = identity on '
+                          'all finished texts within the bound) and its simulated texts are given to the library; closure numbers incl. 0 exhaustively; reaction lines (Trace_C03rx).')
+CHECKS['C05']['text'] += (' Also: benzene-ring existence clause (a ring of six neutral carbons with alternating bonds must come out aromatic), fused lactams / azinones, '
+                          'and a must-convert list (macrocyclic aromatic spellings, bridgehead-nitrogen heteroaromatics) on which a failing conversion is a violation.')
+CHECKS['C08']['text'] += (' Also: queries built through the query API (the requested attributes are the pattern TLC gets) and stereo marks of queries '
+                          '(Trace_StereoQuery: a marked query matches exactly the embeddings under which the target has the configuration the text denotes).')
+CHECKS['C09']['text'] += ' Also: element lists mixing light and heavy elements, scoped searches on multi-component targets with multi-component queries.'
+CHECKS['C11']['text'] += (' Also: the RecordReader behaviours on RDF files, the default reader (dependent stereocentres), atom numbers beyond the V2000 column, and '
+                          'configuration across programs (RDKit records read by the library, the library\'s records read by RDKit; Trace_Wedge).')
+CHECKS['C12']['text'] += ' Also: the other toolkit\'s random spellings (marks at closing ring digits, other first atoms) as input texts, spiro and ring cis/trans pairs.'
+CHECKS['C14']['text'] += ' Also canonicalize(keep_kekule=True), azolium cations, stereo-bearing tautomer inputs, geminal doubled documented spellings.'
+CHECKS['C16']['text'] += ' Also: the product must be the molecule its own canonical text denotes (labels on centres an edit made non-stereogenic must go).'
+CHECKS['C19']['text'] += ' Views are also evaluated in reversed and shuffled order and after a shuffled evaluation; scoped (also multi-component) searches and split are among the views.'
+CHECKS['C20']['text'] += ' RDKit-side reference: RDKit\'s own reading of the original text; explicit hydrogens / deuterium on stereocentres; round-trip configuration; cyclooctenes.'
 PENDING = {}
 
 
